@@ -27,6 +27,7 @@ SIDECARS = {
     'tbrmmdata': 'mmverif.contracts.tbrmmdata_spec',
     'tbrmatchedmarkets': 'mmverif.contracts.tbrmatchedmarkets_spec',
     'tbrmmdesignparameters': 'mmverif.contracts.tbrmmdesignparameters_spec',
+    'tbrmmdiagnostics': 'mmverif.contracts.clients_spec',
 }
 
 CACHE_DIR = os.path.join(common.VERIF, '.cache', 'obl')
